@@ -443,4 +443,66 @@ mod proofs {
     fn k_sig_u64_vs_vu64() {
         assert!(sig_ne(DbU64::signature(), DbVu64::signature()), "DbU64 and DbVu64 share a type signature");
     }
+
+    // ---------------------------------------------------------------- C17 histogram containers
+    /// RecordSizeStats::touch_size / LengthStats::touch_length keep a strictly ascending vector
+    /// whose counts are exactly the number of touches per value (layer M stubs them by a plain
+    /// append and reads the result as a multiset)
+    #[kani::proof]
+    #[kani::unwind(6)]
+    fn k_touch_size() {
+        use abyssiniandb::filedb::verif::{Key, KeyPieceSize};
+        use abyssiniandb::filedb::{verif_stats, RecordSizeStats};
+        let mut s = RecordSizeStats::<Key>::default();
+        let a: [u32; 3] = kani::any();
+        kani::assume(a[0] % 8 == 0 && a[1] % 8 == 0 && a[2] % 8 == 0);
+        s.touch_size(KeyPieceSize::new(a[0]));
+        s.touch_size(KeyPieceSize::new(a[1]));
+        s.touch_size(KeyPieceSize::new(a[2]));
+        let v = verif_stats::size_vec_ref(&s);
+        assert!(v.len() >= 1 && v.len() <= 3);
+        let q: u32 = kani::any();
+        let mut got = 0u64;
+        let mut j = 0;
+        while j < v.len() {
+            if j > 0 {
+                assert!(v[j - 1].0.as_value() < v[j].0.as_value(), "histogram not strictly ascending");
+            }
+            if v[j].0.as_value() == q {
+                got += v[j].1;
+            }
+            j += 1;
+        }
+        let e = (a[0] == q) as u64 + (a[1] == q) as u64 + (a[2] == q) as u64;
+        assert!(got == e, "histogram count differs from the number of touches");
+        kani::cover!(v.len() == 2, "one value touched twice");
+        core::mem::forget(s);
+    }
+    #[kani::proof]
+    #[kani::unwind(6)]
+    fn k_touch_length() {
+        use abyssiniandb::filedb::verif::{Value, ValueLength};
+        use abyssiniandb::filedb::{verif_stats, LengthStats};
+        let mut s = LengthStats::<Value>::default();
+        let a: [u32; 3] = kani::any();
+        s.touch_length(ValueLength::new(a[0]));
+        s.touch_length(ValueLength::new(a[1]));
+        s.touch_length(ValueLength::new(a[2]));
+        let v = verif_stats::length_vec_ref(&s);
+        let q: u32 = kani::any();
+        let mut got = 0u64;
+        let mut j = 0;
+        while j < v.len() {
+            if j > 0 {
+                assert!(v[j - 1].0.as_value() < v[j].0.as_value(), "histogram not strictly ascending");
+            }
+            if v[j].0.as_value() == q {
+                got += v[j].1;
+            }
+            j += 1;
+        }
+        let e = (a[0] == q) as u64 + (a[1] == q) as u64 + (a[2] == q) as u64;
+        assert!(got == e, "histogram count differs from the number of touches");
+        core::mem::forget(s);
+    }
 }
